@@ -226,9 +226,9 @@ func runC07(c *Ctx) {
 			return v
 		}
 		pkg := strings.TrimPrefix(strings.TrimPrefix(T.Obj().Pkg().Path(), core.ModulePath), "/")
-		sz := P.Func(pkg, "(*"+T.Obj().Name()+").Size")
-		um := P.Func(pkg, "(*"+T.Obj().Name()+").UnmarshalBinary")
-		key := pkg + "|(*" + T.Obj().Name() + ").UnmarshalBinary|size-within-consumed"
+		sz := P.Func(pkg, "(*"+core.TypeNameOf(T.Obj())+").Size")
+		um := P.Func(pkg, "(*"+core.TypeNameOf(T.Obj())+").UnmarshalBinary")
+		key := pkg + "|(*" + core.TypeNameOf(T.Obj()) + ").UnmarshalBinary|size-within-consumed"
 		if sz == nil || um == nil {
 			guaranteed[T] = false
 			return false
@@ -332,11 +332,8 @@ func checkTokenizerScans(c *Ctx) {
 			if !ok || call.Call.StaticCallee() == nil || core.FullName(call.Call.StaticCallee()) != "(*bufio.Scanner).Split" {
 				return
 			}
-			arg := core.StripConv(call.Call.Args[1])
-			if mc, ok := arg.(*ssa.MakeClosure); ok {
-				splits = append(splits, mc.Fn.(*ssa.Function))
-			} else if f, ok := arg.(*ssa.Function); ok {
-				splits = append(splits, f)
+			if t := funcValueTarget(call.Call.Args[1], 0); t != nil {
+				splits = append(splits, t)
 			}
 		})
 	}
@@ -770,10 +767,6 @@ func advanceContract(site core.BoundSite) string {
 	if !ok || sl.Low == nil || sl.High != nil {
 		return ""
 	}
-	szCall, ok := core.StripConv(sl.Low).(*ssa.Call)
-	if !ok {
-		return ""
-	}
 	recvOf := func(call *ssa.Call) (ssa.Value, string, ssa.Value) {
 		if call.Call.IsInvoke() {
 			var arg ssa.Value
@@ -791,13 +784,73 @@ func advanceContract(site core.BoundSite) string {
 		}
 		return nil, "", nil
 	}
-	recv, name, _ := recvOf(szCall)
-	helper := ""
-	if h := szCall.Call.StaticCallee(); h != nil && h.Signature.Recv() == nil && len(szCall.Call.Args) == 1 && isSizeHelper(h) {
-		// a helper that returns the decoded size of its argument (X.Size() or the byte count a container recorded)
-		recv, name, helper = szCall.Call.Args[0], "Size", " through "+core.QualName(h)
+	// the amount: X.Size(), a helper returning the decoded size of X, or - written in place - a selection over the
+	// dynamic type of X between X.Size() and the byte count a container recorded (k + X.field)
+	rootOf := func(v ssa.Value) ssa.Value {
+		for i := 0; i < 8; i++ {
+			switch x := v.(type) {
+			case *ssa.TypeAssert:
+				v = x.X
+			case *ssa.Extract:
+				v = x.Tuple
+			case *ssa.FieldAddr:
+				v = x.X
+			case *ssa.UnOp:
+				v = x.X
+			case *ssa.ChangeInterface:
+				v = x.X
+			case *ssa.MakeInterface:
+				v = x.X
+			default:
+				return v
+			}
+		}
+		return v
 	}
-	if name != "Size" || recv == nil {
+	helper := ""
+	var sizeOf func(v ssa.Value, d int) ssa.Value
+	sizeOf = func(v ssa.Value, d int) ssa.Value {
+		if d > 4 {
+			return nil
+		}
+		switch x := core.StripConv(v).(type) {
+		case *ssa.Call:
+			if h := x.Call.StaticCallee(); h != nil && h.Signature.Recv() == nil && len(x.Call.Args) == 1 && isSizeHelper(h) {
+				helper = " through " + core.QualName(h)
+				return x.Call.Args[0]
+			}
+			if r, name, _ := recvOf(x); name == "Size" && r != nil {
+				if d == 0 {
+					return r
+				}
+				return rootOf(r)
+			}
+		case *ssa.BinOp:
+			k, isK := core.ConstInt(x.X)
+			ld, isLd := x.Y.(*ssa.UnOp)
+			if x.Op == token.ADD && isK && k >= 0 && isLd && ld.Op == token.MUL && d > 0 {
+				if _, isField := ld.X.(*ssa.FieldAddr); isField {
+					return rootOf(ld.X)
+				}
+			}
+		case *ssa.Phi:
+			var root ssa.Value
+			for _, e := range x.Edges {
+				r := sizeOf(e, d+1)
+				if r == nil || (root != nil && r != root) {
+					return nil
+				}
+				root = r
+			}
+			if root != nil {
+				helper = " (selected by the dynamic type, in place)"
+			}
+			return root
+		}
+		return nil
+	}
+	recv := sizeOf(sl.Low, 0)
+	if recv == nil {
 		return ""
 	}
 	// the guarantee side of the contract: AMF0 values (C05.consumed) or a composite whose Size() is covered by its decoder
@@ -852,7 +905,7 @@ func sizeGuarantee(recv ssa.Value) string {
 		return "AMF0 value"
 	}
 	if sizeGuaranteeCheck != nil && sizeGuaranteeCheck(n) {
-		return "composite " + n.Obj().Name() + ": every member Size() counts is decoded or cleared on every successful decode"
+		return "composite " + core.TypeNameOf(n.Obj()) + ": every member Size() counts is decoded or cleared on every successful decode"
 	}
 	return ""
 }
@@ -1359,7 +1412,7 @@ func paddedBefore(call *ssa.Call, src ssa.Value) bool {
 	for i := 0; i < 4; i++ {
 		switch x := v.(type) {
 		case *ssa.Call:
-			if f := x.Call.StaticCallee(); f != nil && f.Name() == "padBuffer" {
+			if f := x.Call.StaticCallee(); f != nil && core.FnName(f) == "padBuffer" {
 				return true
 			}
 			return false
@@ -1409,7 +1462,7 @@ func checkNilJSON(c *Ctx, reach map[*ssa.Function]bool) {
 			owner := ""
 			if pt, ok := fa.X.Type().Underlying().(*types.Pointer); ok {
 				if nt, ok := pt.Elem().(*types.Named); ok {
-					owner = nt.Obj().Name()
+					owner = core.TypeNameOf(nt.Obj())
 				}
 			}
 			if !nullableOwners[owner] {
@@ -1449,8 +1502,8 @@ func checkNilJSON(c *Ctx, reach map[*ssa.Function]bool) {
 				if core.FreshBase(fa) {
 					continue
 				}
-				key := ordKey(counts, "https/jose|"+core.FuncName(fn)+"|"+owner+"."+fv.Name())
-				if why, ok := c07NonNil[owner+"."+fv.Name()]; ok && !guarded {
+				key := ordKey(counts, "https/jose|"+core.FuncName(fn)+"|"+owner+"."+core.FieldVarName(fv))
+				if why, ok := c07NonNil[owner+"."+core.FieldVarName(fv)]; ok && !guarded {
 					R.OK("C07.nil", key, P.InstrPos(use), "non-nil by construction: "+why)
 					continue
 				}
@@ -1467,7 +1520,7 @@ var c07NonNil = map[string]string{}
 
 func fieldNameOf(fa *ssa.FieldAddr) string {
 	if fv := core.FieldVar(fa); fv != nil {
-		return fv.Name()
+		return core.FieldVarName(fv)
 	}
 	return "?"
 }
@@ -1958,7 +2011,8 @@ func loopVariant(P *core.Program, fn *ssa.Function, hdr *ssa.BasicBlock) string 
 		}
 	}
 	// (3) transport progress: every iteration reads from the transport (which ends) or returns
-	isRead := func(in ssa.Instruction) bool {
+	var isReadD func(in ssa.Instruction, d int) bool
+	isReadD = func(in ssa.Instruction, d int) bool {
 		call, ok := in.(*ssa.Call)
 		if !ok {
 			return false
@@ -1970,8 +2024,17 @@ func loopVariant(P *core.Program, fn *ssa.Function, hdr *ssa.BasicBlock) string 
 			strings.HasSuffix(name, ".readBasicHeader"), strings.HasSuffix(name, ".Read"):
 			return true
 		}
-		return call.Call.IsInvoke() && call.Call.Method.Name() == "Read"
+		if call.Call.IsInvoke() && call.Call.Method.Name() == "Read" {
+			return true
+		}
+		// a module helper that reads from the transport on every path to its returns (extracted loop body)
+		if f := call.Call.StaticCallee(); f != nil && d < 3 && core.InModule(f) && len(f.Blocks) > 0 {
+			ok, _ := core.MustPassThrough(f.Blocks[0], func(x ssa.Instruction) bool { return isReadD(x, d+1) }, nil)
+			return ok
+		}
+		return false
 	}
+	isRead := func(in ssa.Instruction) bool { return isReadD(in, 0) }
 	if everyCyclePasses(hdr, inLoop, isRead) {
 		return "every iteration reads from the transport (ends with the input) or returns"
 	}
@@ -2070,7 +2133,6 @@ func feedsHeaderPhi(v ssa.Value, hdr *ssa.BasicBlock) bool {
 	return false
 }
 
-
 // checkDecodedMembersCounted: for every RTMP packet type, an optional member that Size() counts when it is non-nil is
 // only ever set by the decoder on a path that goes on to decode it from the input. A member created first and decoded
 // "if bytes remain" is counted by Size() although no byte of it was consumed (Size() > bytes decoded, and the packet
@@ -2145,14 +2207,13 @@ func checkDecodedMembersCounted(c *Ctx, rule string) {
 				}
 				walk(st.Block(), core.InstrIndex(st)+1)
 			})
-			R.Check(bad == "", rule, "rtmp|"+T.Obj().Name()+"|"+mc.path+"|counted-only-when-decoded", P.Pos(um.Pos()),
+			R.Check(bad == "", rule, "rtmp|"+core.TypeNameOf(T.Obj())+"|"+mc.path+"|counted-only-when-decoded", P.Pos(um.Pos()),
 				"the optional member "+mc.path+" is set by the decoder only on paths that decode it from the input",
 				"the decoder sets the optional member "+mc.path+" and can then succeed without decoding it ("+bad+"): Size() counts it although none of its bytes were consumed, and the packet re-marshals to more bytes than it was decoded from", nil)
 		}
 	}
 	R.Check(n >= 3, rule, "rtmp|packets|optional-members-examined", "-", fmt.Sprintf("%d optional members of packet types examined", n), "fewer optional members than confirmed by hand were found", nil)
 }
-
 
 // freshErrorValue: the operand is an error built on a failure path (this repository's errors.New/Errorf/Wrap*/WithMessage,
 // fmt.Errorf, errors.New, or a concrete error value), as opposed to the result of a decode call that is known to be nil
